@@ -976,6 +976,7 @@ class Element(UnicodeMixin):
                 pruned.append(c)
         for p in pruned:
             del self.children[self.__index_of(p)]
+            p.parent = None
 
     def __index_of(self, child):
         """
